@@ -139,15 +139,21 @@ theorem F128_MaxSafeMultiply_eq (M P : W) (hM : Mult M.toInt) :
 when_translated Gen.F128_Int_Ceil in
 theorem F128_Int_Ceil_eq (M P : W) (f : F) (hM : Mult M.toInt) :
     (Gen.F128_Int_Ceil M P f).data.toInt = F128.ceil M.toInt f.data.toInt := by
-  have ht := (C03.f128_trunc_spec M.toInt f.data.toInt hM (GenTie128.fits f.data)).2.2
-  fq_tie [Gen.F128_Int_Ceil, F128_Int_Trunc_eq _ _ _ hM, F128_Int_Add_eq, F128_Multiplier_eq, F128_Int_GreaterThan_eq,
-    F128_Int_GreaterThanOrEqual_eq, F128_Int_LessThan_eq, F128_Int_LessThanOrEqual_eq, F128_Int_Sub_eq] [F128.ceil]
+  have hM0 : M.toInt ≠ 0 := ne_of_gt hM.pos
+  have hpos := hM.pos
+  have ht := C03.f128_trunc_spec M.toInt f.data.toInt hM (GenTie128.fits f.data)
+  have hf := GenTie128.fits f.data
+  simp only [F128.trunc, fits128, abs_lt] at ht hf
+  fq_tie [Gen.F128_Int_Ceil, F128_Int_Trunc_eq _ _ _ hM, F128_Int_Add_eq, F128_Multiplier_eq, F128_multiplier_eq, hM0,
+    F128_Int_GreaterThan_eq, F128_Int_GreaterThanOrEqual_eq, F128_Int_LessThan_eq, F128_Int_LessThanOrEqual_eq,
+    F128_Int_Sub_eq] [F128.ceil, F128.trunc]
 when_translated Gen.F128_Int_Round in
 theorem F128_Int_Round_eq (M P : W) (f : F) (hM : Mult M.toInt) :
     (Gen.F128_Int_Round M P f).data.toInt = F128.round M.toInt f.data.toInt := by
+  have hM0 : M.toInt ≠ 0 := ne_of_gt hM.pos
   fq_tie [Gen.F128_Int_Round, F128_Int_Trunc_eq _ _ _ hM, F128_Int_Add_eq, F128_Int_Sub_eq, F128_Int_Neg_eq,
-    F128_Multiplier_eq, F128_Int_GreaterThan_eq, F128_Int_GreaterThanOrEqual_eq, F128_Int_LessThan_eq,
-    F128_Int_LessThanOrEqual_eq] [F128.round, F128.neg]
+    F128_Multiplier_eq, F128_multiplier_eq, hM0, F128_Int_GreaterThan_eq, F128_Int_GreaterThanOrEqual_eq,
+    F128_Int_LessThan_eq, F128_Int_LessThanOrEqual_eq] [F128.round, F128.neg, F128.trunc]
 
 /-! ## transported specifications -/
 
